@@ -5,8 +5,11 @@ Lean side: `DS.Props.C08` (theorems by induction over operation histories on the
 `Structure`/`PDFFitStructure`/`Atom` objects and on the Lean model (driver commands `world.hist`,
 `world.spec`); after every step the canonical observations are compared (payload lists, identity
 pattern, `atom.lattice is stru.lattice`, lattice sharing between structures, exception kind).
-Oracle (independent of the model): the same history on plain Python lists of payloads plus direct
-identity assertions of the property text on the real objects.
+Oracle (independent of the model): the same history on plain Python lists of (payload, label) pairs plus
+direct identity assertions of the property text on the real objects.  Lookups by label (`stru[label]`,
+tuples / lists with labels, numpy string scalars, `distance` / `angle` by label) must return the atom that
+carries exactly that label in the plain list at that moment - whatever lookups and edits happened before
+(label edits, atoms changing places); IndexError for unknown or duplicated labels.
 """
 import copy as copymod
 import json
@@ -27,6 +30,47 @@ def _oi(x):
     return "_" if x is None else str(int(x))
 
 
+# ------------------------------------------------------------------------------------------
+# labels.  Every atom is created with the label `lab(payload)` (injective), so the Lean model, in which a label *is* the
+# payload, stays applicable as long as no label is reassigned.  The label families are chosen so that the 5-character
+# view `Structure.label` (numpy.char.array(..., itemsize=5), trailing blanks stripped) cannot tell the labels of one
+# structure apart: payloads 1000.. -> 'Cd1001', 'Cd1002' (numeric suffix >= 1000, as assignUniqueLabels gives on large
+# structures), 2000.. -> 'carbon_1', 'carbon_2' (differ beyond position 5 only), 3000.. -> 'site_1', 'site_2 ', 'site3'
+# (trailing blank), below 1000 -> 'L1', 'L2' (the usual short labels).
+# Operations that exist only in the harness (label edits, distance / angle by label) are not sent to the model; from the
+# first label edit of a history on, label keys are handed to the model as the positions the current labels give them.
+# ------------------------------------------------------------------------------------------
+
+HARNESS_ONLY = ("setlabel", "swaplabel", "labelcol", "geom")
+RELABEL = ("setlabel", "swaplabel", "labelcol")
+ABSENT = 999999        # a payload (= model label) that no atom ever has
+
+
+def lab(p):
+    fam, q = divmod(int(p), 1000)
+    if fam == 1:
+        return "Cd%d" % p
+    if fam == 2:
+        return "carbon_%d" % q
+    if fam == 3:
+        return ("site_%d", "site_%d ", "site%d")[q % 3] % q
+    return "L%d" % p
+
+
+def keytext(v):
+    """a label key of a history: an integer stands for the label of the atom created with that payload"""
+    return v if isinstance(v, str) else lab(v)
+
+
+def xyz_of(p):
+    """fractional coordinates of the atom created with payload p (distinct payloads -> distinct sites)"""
+    return [(37 * p % 101) / 101.0, (53 * p % 103) / 103.0, (71 * p % 107) / 107.0]
+
+
+def _ol(v):
+    return json.dumps(v) if isinstance(v, str) else str(int(v))
+
+
 def enc_aref(a):
     return "P %d" % a[1] if a[0] == "P" else "M %d %d" % (a[1], a[2])
 
@@ -42,7 +86,7 @@ def enc_slice(sl):
 
 
 def enc_key(k):
-    return "%s %d" % (k[0], k[1])
+    return "%s %s" % (k[0], _ol(k[1]))
 
 
 def enc_index(ix):
@@ -56,7 +100,7 @@ def enc_index(ix):
     if t == "m":
         return "m %d %s" % (len(ix[1]), " ".join("1" if b else "0" for b in ix[1]))
     if t == "l":
-        return "l %d" % ix[1]
+        return "l %s" % _ol(ix[1])
     return "%s %d %s" % (t, len(ix[1]), " ".join(enc_key(k) for k in ix[1]))
 
 
@@ -105,6 +149,15 @@ def enc_op(op):
     if k == "ctor":
         lat = "_" if op[2] is None else ("new" if op[2][0] == "new" else "of %d" % op[2][1])
         return "ctor %s %s" % ("N" if op[1] is None else enc_iter(op[1]), lat)
+    # harness-only operations (never sent to the driver; shown in messages and replays)
+    if k == "setlabel":
+        return "setlabel %d %d %s" % (op[1], op[2], json.dumps(op[3]))
+    if k == "swaplabel":
+        return "swaplabel %d %d %d" % (op[1], op[2], op[3])
+    if k == "labelcol":
+        return "labelcol %d %s %s" % (op[1], ("list", "ndarray", "scalar", "chararray5")[op[3]], json.dumps(op[2]))
+    if k == "geom":
+        return "%s %d %s" % ("distance" if len(op[2]) == 2 else "angle", op[1], " ".join(enc_key(kk) for kk in op[2]))
     raise ValueError(op)
 
 
@@ -133,6 +186,10 @@ def opname(op):
         return "pickle:%d" % op[2]
     if k == "ctor":
         return "ctor:%s:%s" % ("N" if op[1] is None else op[1][0], "_" if op[2] is None else op[2][0])
+    if k == "labelcol":
+        return "labelcol:%s" % ("list", "ndarray", "scalar", "chararray5")[op[3]]
+    if k == "geom":
+        return "geom:%s" % ("distance" if len(op[2]) == 2 else "angle")
     return k
 
 
@@ -162,11 +219,14 @@ def py_slice(sl):
 
 
 class PlainRun:
-    """The history on plain Python lists of payload integers (real CPython `list` semantics)."""
+    """The history on plain Python lists of (payload, label) pairs (real CPython `list` semantics).  The pairs are
+    values; which slots hold one and the same atom object (needed by `-`, `-=`, `remove` and by label edits, which act on
+    objects) comes in as `hint` from the run on the real objects.  Without hints the run is by value on the payloads."""
 
     def __init__(self):
         self.lists = []      # handle -> list or None
         self.pool = []
+        self.geom = None     # positions a distance / angle call has to use (last `geom` step)
 
     def L(self, h):
         if h < 0 or h >= len(self.lists) or self.lists[h] is None:
@@ -185,14 +245,24 @@ class PlainRun:
             return [self.aref(a) for a in it[1]]
         return list(self.L(it[1]))
 
-    def label_pos(self, lst, p):
-        pos = [j for j, x in enumerate(lst) if x == p]
+    def label_pos(self, lst, v):
+        """the position of the one element carrying exactly this label"""
+        text = keytext(v)
+        pos = [j for j, x in enumerate(lst) if x[1] == text]
         if len(pos) != 1:
             raise IndexError("label")
         return pos[0]
 
+    def key_pos(self, lst, kk):
+        """position addressed by one entry of a tuple / list index or by an argument of distance / angle"""
+        if kk[0] != "I":
+            return self.label_pos(lst, kk[1])
+        if not -len(lst) <= kk[1] < len(lst):
+            raise IndexError("index")
+        return kk[1] % len(lst)
+
     def step(self, op, hint=None):
-        """returns outcome string; `hint` carries identity information for `-`, `-=`, `remove`"""
+        """returns outcome string; `hint` carries identity information for `-`, `-=`, `remove` and label edits"""
         try:
             return self._step(op, hint)
         except BadOp:
@@ -204,10 +274,17 @@ class PlainRun:
         self.lists.append(lst)
         return "stru:%d" % (len(self.lists) - 1)
 
+    def _relabel(self, where, text):
+        """one atom object gets a label: every slot that holds it shows it"""
+        for h, j in where["slots"]:
+            self.lists[h][j] = (self.lists[h][j][0], text)
+        for j in where["pool"]:
+            self.pool[j] = (self.pool[j][0], text)
+
     def _step(self, op, hint):
         k = op[0]
         if k == "mkatom":
-            self.pool.append(op[1])
+            self.pool.append((op[1], lab(op[1])))
             return "ok"
         if k == "mkstru":
             return self._new([])
@@ -218,7 +295,7 @@ class PlainRun:
             return self._new(list(vals))
         lst = self.L(op[1])
         if k == "addnew":
-            lst.append(op[2])
+            lst.append((op[2], lab(op[2])))
         elif k == "append":
             lst.append(self.aref(op[2]))
         elif k == "insert":
@@ -228,7 +305,7 @@ class PlainRun:
         elif k == "get":
             ix = op[2]
             if ix[0] == "i":
-                return "atom:%d" % lst[ix[1]]
+                return "atom:%d" % lst[ix[1]][0]
             if ix[0] == "s":
                 return self._new(lst[py_slice(ix[1])])
             if ix[0] == "a":
@@ -239,7 +316,7 @@ class PlainRun:
                     raise IndexError("mask")
                 return self._new([x for x, b in zip(lst, ix[1]) if b])
             if ix[0] == "l":
-                return "atom:%d" % lst[self.label_pos(lst, ix[1])]
+                return "atom:%d" % lst[self.label_pos(lst, ix[1])][0]
             if ix[0] == "t" and not ix[1]:
                 raise ValueError("empty tuple")
             idx = [kk[1] if kk[0] == "I" else self.label_pos(lst, kk[1]) for kk in ix[1]]
@@ -261,8 +338,8 @@ class PlainRun:
             if hint is not None:
                 kept = [x for j, x in enumerate(lst) if j not in hint]
             else:
-                oset = set(other)
-                kept = [x for x in lst if x not in oset]
+                oset = set(x[0] for x in other)
+                kept = [x for x in lst if x[0] not in oset]
             if k == "sub":
                 return self._new(kept)
             lst[:] = kept
@@ -277,7 +354,7 @@ class PlainRun:
                 self.L(op[2][1])
         elif k == "pop":
             v = lst.pop() if op[2] is None else lst.pop(op[2])
-            return "atom:%d" % v
+            return "atom:%d" % v[0]
         elif k == "remove":
             v = self.aref(op[2])
             if hint is not None:
@@ -285,21 +362,60 @@ class PlainRun:
                     raise ValueError("remove")
                 del lst[hint]
             else:
-                lst.remove(v)
+                pos = [j for j, x in enumerate(lst) if x[0] == v[0]]
+                if not pos:
+                    raise ValueError("remove")
+                del lst[pos[0]]
         elif k == "reverse":
             lst.reverse()
         elif k == "sort":
-            lst.sort()
+            lst.sort(key=lambda x: x[0])
         elif k == "clear":
             lst.clear()
         elif k == "drop":
             self.lists[op[1]] = None
+        elif k == "setlabel":
+            # stru[i].label = text
+            lst[op[2]]
+            i = op[2] % len(lst)
+            self._relabel(hint[0] if hint else {"slots": [(op[1], i)], "pool": []}, op[3])
+        elif k == "swaplabel":
+            # stru[i].label, stru[j].label = stru[j].label, stru[i].label
+            ti, tj = lst[op[2]][1], lst[op[3]][1]
+            i, j = op[2] % len(lst), op[3] % len(lst)
+            self._relabel(hint[0] if hint else {"slots": [(op[1], i)], "pool": []}, tj)
+            self._relabel(hint[1] if hint else {"slots": [(op[1], j)], "pool": []}, ti)
+        elif k == "labelcol":
+            # stru.label = value: the value is broadcast over the atoms, nothing happens on an empty structure
+            n = len(lst)
+            if n:
+                texts = op[2]
+                if op[3] == 2:
+                    vals = [texts] * n
+                else:
+                    if isinstance(texts, str) or len(texts) not in (1, n):
+                        raise ValueError("broadcast")
+                    vals = list(texts) * (n if len(texts) == 1 else 1)
+                    if op[3] == 3:       # the value is itself a 5-character array
+                        vals = [t[:5] for t in vals]
+                for j in range(n):
+                    self._relabel(hint[j] if hint else {"slots": [(op[1], j)], "pool": []}, vals[j])
+        elif k == "geom":
+            # stru.distance(k0, k1) / stru.angle(k0, k1, k2): which elements the call has to use
+            self.geom = None
+            if len(op[2]) not in (2, 3):
+                raise BadOp()
+            self.geom = [self.key_pos(lst, kk) for kk in op[2]]
+            self.lists.append(None)       # the handle of the selection that the call evaluated and let go of
         else:
             raise BadOp()
         return "ok"
 
     def observe(self):
-        return " ".join("%d:%s" % (h, ",".join(str(x) for x in l)) for h, l in enumerate(self.lists) if l is not None)
+        return " ".join("%d:%s" % (h, ",".join(str(x[0]) for x in l)) for h, l in enumerate(self.lists) if l is not None)
+
+    def labels(self):
+        return {h: [x[1] for x in l] for h, l in enumerate(self.lists) if l is not None}
 
 
 # ------------------------------------------------------------------------------------------
@@ -327,6 +443,12 @@ class ImplRun:
         self.failures = []    # (step index, key, what)
         self.nstep = 0
         self.diverged = False
+        self.desync = False   # a lookup by label gave another selection than the plain lists: their states differ from here on
+        self.relabelled = False   # a label was reassigned: labels are no longer lab(payload)
+        self.mops = []        # per step: the operation as the Lean model is given it (None: harness-only operation)
+        self.looked = {}      # id(structure) -> labels of its atoms at the last lookup by label
+        self.cov = {"label_lookups": 0, "lookup_after_label_move": 0, "lookup_after_hidden_label_move": 0,
+                    "lookup_among_labels_sharing_5_chars": 0}
 
     # ---- argument construction ----
     def S(self, h):
@@ -370,15 +492,92 @@ class ImplRun:
         if t == "m":
             return np.array(ix[1], dtype=bool) if len(ix[1]) % 2 == 0 else [bool(b) for b in ix[1]]
         if t == "l":
-            # a label as a plain str, or as the numpy string scalar that a label column (`stru.label`) hands out
-            return np.str_("L%d" % ix[1]) if ix[1] % 3 == 1 else "L%d" % ix[1]
-        ks = [kk[1] if kk[0] == "I" else (np.str_("L%d" % kk[1]) if kk[1] % 3 == 2 else "L%d" % kk[1]) for kk in ix[1]]
+            return self.label_arg(ix[1], 1)
+        ks = [kk[1] if kk[0] == "I" else self.label_arg(kk[1], 2) for kk in ix[1]]
         return tuple(ks) if t == "t" else ks
 
+    def label_arg(self, v, r):
+        """a label as a plain str, or as the numpy string scalar that a label column / array of labels hands out"""
+        text = keytext(v)
+        return self.np.str_(text) if (len(text) if isinstance(v, str) else v) % 3 == r else text
+
     def mkatom(self, p):
-        a = self.Atom("C", [0.1, 0.2, 0.3], label="L%d" % p, occupancy=1.0)
+        a = self.Atom("C", xyz_of(p), label=lab(p), occupancy=1.0)
         a.payload = p
         return a
+
+    def note_lookup(self, op):
+        """coverage: lookups by label whose structure had other labels at these positions at its previous lookup by
+        label; `hidden`: while the 5-character, blank-stripped label column `Structure.label` shows no difference"""
+        if not ((op[0] == "get" and (op[2][0] == "l" or (op[2][0] in ("t", "k") and any(kk[0] != "I" for kk in op[2][1])))) or
+                (op[0] == "geom" and any(kk[0] != "I" for kk in op[2]))):
+            return
+        try:
+            s = self.S(op[1])
+        except BadOp:
+            return
+        now = [str(a.label) for a in list.__iter__(s)]
+        view = [t[:5].rstrip() for t in now]
+        self.cov["label_lookups"] += 1
+        if len(set(view)) < len(set(now)):
+            self.cov["lookup_among_labels_sharing_5_chars"] += 1
+        before = self.looked.get(id(s))
+        if before is not None and before != now:
+            self.cov["lookup_after_label_move"] += 1
+            if [t[:5].rstrip() for t in before] == view:
+                self.cov["lookup_after_hidden_label_move"] += 1
+        self.looked[id(s)] = now
+
+    # ---- what the Lean model is given ----
+    def project(self, op):
+        """The model knows no label edits (a label is the payload there) and no distance / angle.  Label edits are left
+        out.  Label keys that are literal strings, and every label key once a label was reassigned, are replaced by what
+        the labels of the atoms say at this point: the position of the one atom carrying the label, else a label nobody
+        has.  `stru.distance(k0, k1)` / `stru.angle(k0, k1, k2)` evaluate the selection `stru[k0, k1(, k2)]` (which
+        re-links the selected atoms to the structure's lattice) and let go of it: the model is given that selection and,
+        when it exists, its release - both runs use up one handle for it.
+        Returns None (nothing for the model), one operation, or a list of operations of which the last is compared."""
+        k = op[0]
+        if k in RELABEL:
+            self.relabelled = True
+            return None
+        if k == "geom":
+            if len(op[2]) not in (2, 3):
+                return None
+            ix = ("t", op[2])
+        elif k != "get" or op[2][0] not in ("l", "t", "k"):
+            return op
+        else:
+            ix = op[2]
+        try:
+            labels = [a.label for a in list.__iter__(self.S(op[1]))]
+        except BadOp:
+            labels = None
+
+        def rewrite(v):
+            return self.relabelled or isinstance(v, str)
+
+        def pos(v):
+            hits = [j for j, t in enumerate(labels or []) if t == keytext(v)]
+            return hits[0] if len(hits) == 1 else None
+        if ix[0] == "l":
+            if not rewrite(ix[1]):
+                return op
+            j = pos(ix[1])
+            return ("get", op[1], ("i", j) if j is not None else ("l", ABSENT))
+        ks, resolves = [], labels is not None
+        for kk in ix[1]:
+            if kk[0] == "I":
+                ks.append(kk)
+                resolves = resolves and -len(labels) <= kk[1] < len(labels)
+            else:
+                j = pos(kk[1])
+                resolves = resolves and j is not None
+                ks.append(kk if not rewrite(kk[1]) else ("I", j) if j is not None else ("B", ABSENT))
+        g = ("get", op[1], (ix[0], ks))
+        if k == "geom":
+            return [g, ("drop", len(self.strus))] if resolves else [g]
+        return g
 
     # ---- observation ----
     def live(self):
@@ -399,7 +598,9 @@ class ImplRun:
     def step(self, op):
         """returns 'outcome observation' in the model's format"""
         pre = None
+        self.mops.append(self.project(op))
         if self.oracle:
+            self.note_lookup(op)
             pre = self.snapshot()
         hint = self.hint_for(op) if self.oracle else None
         signal.signal(signal.SIGALRM, _alarm)
@@ -419,7 +620,7 @@ class ImplRun:
             out = type(e).__name__
         except Exception as e:  # any other exception kind is reported by name
             out = type(e).__name__
-        if self.oracle and not self.diverged:
+        if self.oracle and not self.diverged and not self.desync:
             pout = self.plain.step(op, hint)
             self.check(op, pre, out, pout, info)
         elif self.oracle and self.diverged:
@@ -456,7 +657,7 @@ class ImplRun:
             return self._new(cls(*args, **kw))
         s = self.S(op[1])
         if k == "addnew":
-            s.addNewAtom("C", xyz=[0.5, 0.5, 0.5], label="L%d" % op[2])
+            s.addNewAtom("C", xyz=xyz_of(op[2]), label=lab(op[2]))
             list.__getitem__(s, -1).payload = op[2]
         elif k == "append":
             a = self.aref(op[2])
@@ -556,6 +757,27 @@ class ImplRun:
         elif k == "drop":
             self.grave.append(s)
             self.strus[op[1]] = None
+        elif k == "setlabel":
+            s[op[2]].label = op[3]
+        elif k == "swaplabel":
+            s[op[2]].label, s[op[3]].label = s[op[3]].label, s[op[2]].label
+        elif k == "labelcol":
+            np = self.np
+            v = op[2]
+            if op[3] == 1:
+                v = np.array(v, dtype=str)
+            elif op[3] == 3:
+                v = np.char.array(v, itemsize=5)
+            elif op[3] == 2 and len(v) % 2:
+                v = np.str_(v)
+            s.label = v
+        elif k == "geom":
+            if len(op[2]) not in (2, 3):
+                raise BadOp()
+            args = [kk[1] if kk[0] == "I" else self.label_arg(kk[1], 0) for kk in op[2]]
+            with self.np.errstate(all="ignore"):
+                info["value"] = float(s.distance(*args) if len(args) == 2 else s.angle(*args))
+            self.strus.append(None)       # the handle of the selection that the call evaluated and let go of
         else:
             raise BadOp()
         return "ok"
@@ -593,6 +815,13 @@ class ImplRun:
                     if a is x:
                         return j
                 return "absent"
+            if op[0] in RELABEL:
+                # every slot (of every live structure and of the free atoms) that holds the atom object(s) addressed
+                atoms = list(list.__iter__(self.S(op[1])))
+                tgt = atoms if op[0] == "labelcol" else [atoms[op[2]]] if op[0] == "setlabel" else [atoms[op[2]], atoms[op[3]]]
+                live = [(h, list(list.__iter__(t))) for h, t in self.live()]
+                return [{"slots": [(h, j) for h, l in live for j, a in enumerate(l) if a is x],
+                         "pool": [j for j, a in enumerate(self.pool) if a is x]} for x in tgt]
         except (BadOp, IndexError):
             pass
         return None
@@ -610,11 +839,48 @@ class ImplRun:
         if k == "get" and op[2][0] == "t" and not op[2][1]:
             if out in ("IndexError", "ValueError"):
                 got_out = exp_out = "error"
+        bylabel = (k == "get" and (op[2][0] == "l" or (op[2][0] in ("t", "k") and any(kk[0] != "I" for kk in op[2][1])))) or \
+            (k == "geom" and any(kk[0] != "I" for kk in op[2]))
         if got_out != exp_out:
-            self.fail("content:%s" % name, "outcome %r, the plain-list run gives %r" % (out, pout))
+            if bylabel:
+                labels = self.plain.labels().get(op[1])
+                self.fail("label-lookup:%s" % name, "%s on the atoms labelled %r: outcome %r, the plain list of (payload, label) gives %r" % (
+                    enc_op(op), labels, out, pout))
+                if out.startswith("stru:") or pout.startswith("stru:") or k == "geom":
+                    self.desync = True      # one side has a structure (used up a handle) the other has not: nothing further can be compared
+                    return
+            else:
+                self.fail("content:%s" % name, "outcome %r, the plain-list run gives %r" % (out, pout))
         mine = " ".join("%d:%s" % (h, ",".join(str(a.payload) for a in list.__iter__(s))) for h, s in live)
         if mine != self.plain.observe():
+            if bylabel and k == "get":
+                self.fail("label-lookup:%s" % name, "%s on the atoms labelled %r: the atom sequences are %r, the plain lists of (payload, label) give %r" % (
+                    enc_op(op), self.plain.labels().get(op[1]), mine, self.plain.observe()))
+                self.desync = True
+                return
             self.fail("content:%s" % name, "atom sequence %r differs from the plain-list result %r" % (mine, self.plain.observe()))
+        mylabels = {h: [str(a.label) for a in list.__iter__(s)] for h, s in live}
+        if mylabels != self.plain.labels():
+            self.fail("labels:%s" % name, "the atoms carry the labels %r, the plain-list run gives %r" % (mylabels, self.plain.labels()))
+        if k == "geom" and out == "ok" and pout == "ok" and self.plain.geom is not None:
+            # the value must be the one of the atoms that carry the labels (Cartesian geometry from the lattice base)
+            np = self.np
+            src = pre["objs"][op[1]]
+            base = np.array(pre["lats"][op[1]].base, dtype=float)
+            cart = [np.dot(np.array(src[j].xyz, dtype=float), base) for j in self.plain.geom]
+            if len(cart) == 2:
+                exp = float(np.linalg.norm(cart[0] - cart[1]))
+            else:
+                u, v = cart[0] - cart[1], cart[2] - cart[1]
+                nu, nv = float(np.linalg.norm(u)), float(np.linalg.norm(v))
+                exp = None if min(nu, nv) < 1e-9 else float(np.degrees(np.arccos(max(-1.0, min(1.0, float(np.dot(u, v)) / (nu * nv))))))
+            got = info.get("value")
+            # arccos near 0 / 180 degrees turns rounding errors of 1e-16 into 1e-6 degrees; other atoms are degrees away
+            tol = 1e-9 * max(1.0, abs(exp or 0.0)) if len(cart) == 2 else 1e-4
+            if exp is not None and not (got is not None and abs(got - exp) <= tol):
+                self.fail("label-lookup:%s" % name if bylabel else "content:%s" % name,
+                          "%s on the atoms labelled %r gives %r; the atoms at positions %r, which the plain list of (payload, label) selects, give %r" % (
+                              enc_op(op), self.plain.labels().get(op[1]), got, self.plain.geom, exp))
         if info.get("rebinds"):
             self.fail("inplace-rebinds:%s" % name, "in-place operator returned a different object")
         # (a) lattice back-references
@@ -759,7 +1025,7 @@ class ImplRun:
                     if kk[0] == "I":
                         out.append(src[kk[1]])
                     else:
-                        pos = [a for a in src if a.payload == kk[1]]
+                        pos = [a for a in src if a.label == keytext(kk[1])]
                         out.append(pos[0])
                 return out
         except IndexError:
@@ -840,6 +1106,7 @@ class Gen:
         self.rng = rng
         self.maxlen = maxlen
         self.nextp = 1
+        self.base = 0        # payloads of a history start here: selects the label family (see `lab`)
 
     def fresh(self):
         self.nextp += 1
@@ -907,22 +1174,137 @@ class Gen:
         if r < 0.75:
             m = n if self.rng.random() < 0.85 else n + self.rng.choice([-1, 1])
             return ("m", [self.rng.random() < 0.5 for _ in range(max(m, 0))])
-        pays = [a.payload for a in list.__iter__(run.strus[h])] if run.strus[h] is not None else []
-
-        def lab():
-            if pays and self.rng.random() < 0.9:
-                return self.rng.choice(pays)
-            return 9999
         if r < 0.85:
-            return ("l", lab())
-        ks = [("I", self.int_index(n)) if self.rng.random() < 0.5 else ("B", lab()) for _ in range(self.rng.choice([1, 2, 2, 3]))]
+            return ("l", self.label_key(run, h))
+        ks = [("I", self.int_index(n)) if self.rng.random() < 0.5 else ("B", self.label_key(run, h)) for _ in range(self.rng.choice([1, 2, 2, 3]))]
         return (self.rng.choice(["t", "t", "k"]), ks)
+
+    # ---- labels ----
+    def atoms(self, run, h):
+        return list(list.__iter__(run.strus[h])) if 0 <= h < len(run.strus) and run.strus[h] is not None else []
+
+    def label_key(self, run, h):
+        """a label to look up in structure h: mostly one that an atom there carries (given as the payload while that is
+        still the label the atom was created with, else as the text), sometimes an unknown one or a near miss (the
+        5-character prefix, a trailing blank more or less, another last character)"""
+        atoms = self.atoms(run, h)
+        r = self.rng.random()
+        if atoms and r < 0.8:
+            a = self.rng.choice(atoms)
+            return a.payload if a.label == lab(a.payload) else str(a.label)
+        if not atoms or r < 0.9:
+            return self.rng.choice([9999, self.base + 999])
+        t = str(self.rng.choice(atoms).label)
+        return self.rng.choice([t[:5], t + " ", t.rstrip() or "x", t[:-1] + "?", t[:5] + "_"])
+
+    def new_label(self, run, h):
+        """a label to assign: the one of another atom of the structure (duplicate / half of a swap), a fresh one of the
+        history's family, or a variant that the 5-character label column cannot tell from the present one"""
+        atoms = self.atoms(run, h)
+        r = self.rng.random()
+        if atoms and r < 0.45:
+            return str(self.rng.choice(atoms).label)
+        if not atoms or r < 0.7:
+            return lab(self.base + self.rng.randrange(1, 30))
+        t = str(self.rng.choice(atoms).label)
+        return self.rng.choice([t + " ", t.rstrip() or "x", t[:5] or "x", t[:5] + "x", t[:-1] + self.rng.choice("AB")])
+
+    def label_column(self, run, h):
+        """value of `stru.label = ...`: (texts, form)"""
+        cur = [str(a.label) for a in self.atoms(run, h)]
+        n = len(cur)
+        r = self.rng.random()
+        if r < 0.12:
+            return self.new_label(run, h), 2                       # one string for all atoms
+        vals = list(cur)
+        if n >= 2 and r < 0.45:
+            i, j = self.rng.sample(range(n), 2)
+            vals[i], vals[j] = vals[j], vals[i]                    # two labels change places
+        elif n >= 2 and r < 0.6:
+            vals.reverse()
+        elif n >= 2 and r < 0.75:
+            i, j = self.rng.sample(range(n), 2)
+            vals[i] = vals[j]                                      # a duplicate
+        elif r < 0.9:
+            vals = [self.new_label(run, h) for _ in range(n)]
+        else:
+            vals = [self.new_label(run, h) for _ in range(self.rng.choice([1, n + 1, max(n - 1, 0)]))]   # broadcast / wrong length
+        return vals, self.rng.choice([0, 0, 0, 1, 1, 3])
+
+    def geom_keys(self, n, run, h, bylabel=False):
+        m = self.rng.choice([2, 2, 3])
+        ks = [("I", self.int_index(n)) if self.rng.random() < 0.35 else ("B", self.label_key(run, h)) for _ in range(m)]
+        if bylabel and all(kk[0] == "I" for kk in ks):
+            ks[self.rng.randrange(m)] = ("B", self.label_key(run, h))
+        return ks
+
+    def lookup(self, run, h):
+        """one lookup by label in structure h: stru[label], stru[label, i, ...], stru[[label, ...]], distance / angle"""
+        n = len(self.atoms(run, h))
+        r = self.rng.random()
+        if r < 0.45:
+            return ("get", h, ("l", self.label_key(run, h)))
+        if r < 0.75:
+            ks = [("B", self.label_key(run, h))] + [("I", self.int_index(n)) if self.rng.random() < 0.4 else ("B", self.label_key(run, h))
+                                                    for _ in range(self.rng.choice([0, 1, 1, 2]))]
+            self.rng.shuffle(ks)
+            return ("get", h, (self.rng.choice(["t", "t", "k"]), ks))
+        return ("geom", h, self.geom_keys(n, run, h, bylabel=True))
+
+    def mover(self, run, h):
+        """operations after which other atoms of structure h carry the labels, the length staying the same: atoms change
+        places (slice / item assignment, reverse, sort, pop + insert) or labels do (atom label assignment, swap, column)"""
+        atoms = self.atoms(run, h)
+        n = len(atoms)
+        if n < 2:
+            return [("setlabel", h, self.int_index(n), self.new_label(run, h))]
+        i, j = sorted(self.rng.sample(range(n), 2))
+        r = self.rng.random()
+        if r < 0.16:
+            sl = (i, i + 2, None) if j == i + 1 and self.rng.random() < 0.7 else (i, j + 1, j - i)
+            return [("setsl", h, sl, (self.rng.choice(["L", "G"]), [("M", h, j), ("M", h, i)]), self.rng.random() < 0.4)]
+        if r < 0.26:
+            return [("reverse", h)]
+        if r < 0.32:
+            return [("sort", h)]
+        if r < 0.44:
+            a, b = (i, j) if self.rng.random() < 0.5 else (j, i)
+            return [("set", h, a - (n if self.rng.random() < 0.3 else 0), ("M", h, b), self.rng.random() < 0.6)]
+        if r < 0.50 and run.pool:
+            return [("set", h, i, ("P", self.rng.randrange(len(run.pool))), self.rng.random() < 0.6)]
+        if r < 0.58:
+            return [("pop", h, i), ("insert", h, self.rng.randrange(n), ("M", h, self.rng.randrange(n - 1)), self.rng.choice(["d", "y", "n"]))]
+        if r < 0.74:
+            return [("swaplabel", h, i - (n if self.rng.random() < 0.3 else 0), j)]
+        if r < 0.88:
+            return [("setlabel", h, self.rng.choice([i, j, i - n]), self.new_label(run, h))]
+        vals, form = self.label_column(run, h)
+        return [("labelcol", h, vals, form)]
+
+    def episode(self, run, emit):
+        """lookup by label, an edit that moves labels between positions, lookups again - all on one structure"""
+        lens = self.lens(run)
+        hs = sorted(h for h in lens if lens[h] >= 2)
+        if not hs:
+            return
+        h = self.rng.choice(hs)
+        emit(self.lookup(run, h))
+        for _ in range(self.rng.choice([1, 1, 2])):
+            for op in self.mover(run, h):
+                if run.diverged:
+                    return
+                emit(op)
+        for _ in range(self.rng.choice([1, 2, 2])):
+            if run.diverged:
+                return
+            emit(self.lookup(run, h))
 
     WEIGHTS = [
         ("append", 6), ("insert", 6), ("extend", 9), ("get", 12), ("set", 5), ("setsl", 9), ("del", 3), ("delsl", 4),
         ("add", 4), ("iadd", 4), ("sub", 4), ("isub", 4), ("mul", 3), ("imul", 3), ("copy", 4), ("pickle", 3),
         ("deepcopy", 1), ("setlat", 5), ("pop", 2), ("remove", 2), ("reverse", 1), ("sort", 1), ("clear", 1),
         ("drop", 1), ("mkatom", 2), ("addnew", 2), ("mkstru", 1), ("ctor", 6),
+        ("setlabel", 3), ("swaplabel", 2), ("labelcol", 2), ("geom", 3),
     ]
 
     def op(self, run):
@@ -989,11 +1371,21 @@ class Gen:
             return ("pop", h, None if self.rng.random() < 0.4 else self.int_index(n))
         if k == "remove":
             return ("remove", h, self.aref(lens, run, h))
+        if k == "setlabel":
+            return ("setlabel", h, self.int_index(n), self.new_label(run, h))
+        if k == "swaplabel":
+            return ("swaplabel", h, self.int_index(n), self.int_index(n))
+        if k == "labelcol":
+            vals, form = self.label_column(run, h)
+            return ("labelcol", h, vals, form)
+        if k == "geom":
+            return ("geom", h, self.geom_keys(n, run, h))
         return (k, h)
 
     def history(self):
         """returns (ops, impl run, observations)"""
-        self.nextp = 1
+        self.base = 1000 * self.rng.choice([0, 0, 1, 1, 2, 2, 2, 3])
+        self.nextp = self.base + 1
         run = ImplRun(oracle=True)
         ops, obs = [], []
 
@@ -1008,9 +1400,18 @@ class Gen:
         for _ in range(self.rng.choice([0, 1, 2])):
             emit(("mkatom", self.fresh()))
         n = self.rng.randint(max(1, self.maxlen // 2), self.maxlen)
-        for _ in range(n):
+        # in about a third of the histories one episode "lookup by label - labels move - lookup by label" on one structure
+        epi_at = -1
+        if self.rng.random() < 0.35:
+            n = max(1, n - 4)
+            epi_at = self.rng.randrange(n)
+        for i in range(n):
             if run.diverged:
                 break
+            if i == epi_at:
+                self.episode(run, emit)
+                if run.diverged:
+                    break
             emit(self.op(run))
         return ops, run, obs
 
@@ -1126,7 +1527,50 @@ def corpus():
         two + [("extend", 1, ("T", 0), "d"), ("setlat", 0, ("of", 0)), ("get", 0, ("a", [0, 2])), ("setlat", 2, ("new",)), ("setlat", 0, ("of", 0))],
         # lattice sharing between structures
         two + [("setlat", 1, ("of", 0)), ("append", 1, ("M", 0, 0), "n"), ("copy", 0, 2), ("copy", 1, 3), ("setlat", 0, ("new",))],
-    ]
+    ] + label_corpus()
+
+
+def label_corpus():
+    """Directed histories "lookups by label - the labels move - the same lookups": labels that the 5-character label column
+    `Structure.label` cannot tell apart ('carbon_1' / 'carbon_2', 'Cd1001' / 'Cd1002', 'site_1 ' / 'site_1'), one kind
+    of move per history (anything a lookup remembers about the atoms must not survive it)."""
+    out = []
+    for p0 in (2001, 1001, 3001, 1):
+        a, b, c = p0, p0 + 1, p0 + 2
+        three = [("mkstru", 0), ("addnew", 0, a), ("addnew", 0, b), ("addnew", 0, c)]
+        look = [("get", 0, ("l", a)), ("get", 0, ("l", b)), ("get", 0, ("l", c)), ("get", 0, ("l", lab(a)[:5])), ("get", 0, ("l", lab(b) + " ")),
+                ("get", 0, ("t", [("B", b), ("I", 2)])), ("get", 0, ("k", [("B", a), ("B", c)])),
+                ("geom", 0, [("B", a), ("I", 2)]), ("geom", 0, [("B", c), ("B", a), ("B", b)])]
+        moves = [
+            [("swaplabel", 0, 0, 1)],
+            [("setsl", 0, (0, 2, None), ("L", [("M", 0, 1), ("M", 0, 0)]), False)],
+            [("setsl", 0, (0, 3, 2), ("G", [("M", 0, 2), ("M", 0, 0)]), True)],
+            [("mkatom", p0 + 3), ("set", 0, 1, ("P", 0), True), ("get", 0, ("l", p0 + 3))],
+            [("set", 0, -3, ("M", 0, 1), True)],
+            [("labelcol", 0, [lab(a), lab(a), lab(c)], 0)],
+            [("labelcol", 0, [lab(b), lab(c), lab(a)], 1)],
+            [("labelcol", 0, lab(a), 2)],
+            [("labelcol", 0, [lab(c), lab(b), lab(a)], 3), ("get", 0, ("l", lab(a)[:5]))],
+            [("labelcol", 0, [lab(a), lab(b)], 0), ("labelcol", 0, [], 1), ("labelcol", 0, [lab(c)], 0)],
+            [("setlabel", 0, 0, lab(b))],
+            [("setlabel", 0, 1, lab(b) + " "), ("get", 0, ("l", lab(b) + " ")), ("get", 0, ("l", lab(b).rstrip()))],
+            [("setlabel", 0, -1, lab(a)[:5]), ("setlabel", 0, 7, "x")],
+            [("reverse", 0)],
+            [("reverse", 0), ("sort", 0)],
+            [("pop", 0, 0), ("insert", 0, 2, ("M", 0, 0), "y")],
+            [("pop", 0, 1), ("insert", 0, 0, ("M", 0, 1), "n")],
+            [("del", 0, 0), ("addnew", 0, p0 + 3)],
+            # the labels change through a selection that shares the atoms / the lookups go through the selection
+            [("get", 0, ("s", (0, 2, None))), ("swaplabel", 1, 0, 1)],
+            [("get", 0, ("a", [2, 0])), ("get", 1, ("l", a)), ("reverse", 1), ("get", 1, ("l", a)), ("labelcol", 1, [lab(b), lab(b)], 0),
+             ("get", 1, ("l", c)), ("get", 1, ("l", b))],
+            # what a lookup remembers must not travel with copies either
+            [("copy", 0, 0), ("swaplabel", 1, 0, 2), ("get", 1, ("l", a)), ("pickle", 0, 2), ("reverse", 2), ("get", 2, ("l", a)),
+             ("get", 2, ("t", [("B", c), ("B", a)])), ("deepcopy", 0), ("setlabel", 3, 0, lab(c)), ("get", 3, ("l", c)), ("get", 3, ("l", a))],
+        ]
+        for mv in moves:
+            out.append(three + look + mv + look)
+    return out
 
 
 # ------------------------------------------------------------------------------------------
@@ -1194,12 +1638,46 @@ def oracle_keys(ops):
     return out
 
 
+def model_view(ops, mops, obs):
+    """(steps that the model executes, the operations given to it, the implementation's observations of those steps, and
+    for each of the steps the position of the model output to compare with - the last one of the step's operations)"""
+    idx, flat, pos = [], [], []
+    for i, op in enumerate(ops):
+        if i < len(mops):
+            m = mops[i]
+        else:       # steps after a divergence: not executed on the implementation
+            m = None if op[0] in HARNESS_ONLY else op
+        if m is None:
+            continue
+        group = m if isinstance(m, list) else [m]
+        flat.extend(group)
+        idx.append(i)
+        pos.append(len(flat) - 1)
+    return idx, flat, [obs[i] for i in idx if i < len(obs)], pos
+
+
+def model_diff(ops, mops, obs, mo):
+    """index (in `ops`) of the first step at which model and implementation differ, or None"""
+    idx, _, io, pos = model_view(ops, mops, obs)
+    mo = [mo[p] for p in pos if p < len(mo)]
+    d = first_diff(io, mo)
+    if d is None or (len(io) < len(mo) and d == len(io) and io and "diverges" in io[-1]):
+        return None
+    return idx[d] if d < len(idx) else len(ops)
+
+
 def mismatch_step(ops):
+    """(first differing step or None, implementation observations, model observations aligned with `ops`)"""
     r, obs = run_impl(ops, oracle=False)
     if r.diverged:
         return len(obs) - 1, obs, None
-    mo = model_obs([ops])[0]
-    return first_diff(obs, mo), obs, mo
+    idx, mview, _, pos = model_view(ops, r.mops, obs)
+    mo = model_obs([mview])[0] if mview else []
+    aligned = [None] * len(ops)
+    for i, p in zip(idx, pos):
+        if p < len(mo):
+            aligned[i] = mo[p]
+    return model_diff(ops, r.mops, obs, mo), obs, aligned
 
 
 def run(ck):
@@ -1223,16 +1701,22 @@ def run(ck):
             ", ".join(tie_info.get("broken_theorems") or ["translator"]), nhist, nhist // 3))
     maxlen = 12 if quick else 40
     g = Gen(ck.rng, maxlen)
-    histories, impl_obs, oracle_fail = [], [], []
+    histories, impl_obs, oracle_fail, model_ops = [], [], [], []
     hist_kinds = {}
     strata = {"mul_n<=0": 0, "rmul_n<=0": 0, "imul_n<=0": 0, "index_repeated_entry": 0,
-              "ctor_copy_with_lattice": 0, "ctor_iterable_with_lattice": 0}
+              "ctor_copy_with_lattice": 0, "ctor_iterable_with_lattice": 0,
+              "label_edit": 0, "label_column_assignment": 0, "distance_angle_by_label": 0, "label_key_literal_text": 0,
+              "label_with_trailing_blank": 0, "label_numeric_suffix>=1000": 0}
+    label_cov = {"directed": {}, "random": {}}
     nsteps = 0
     for ops in corpus():
         r, obs = run_impl(ops, oracle=True)
         histories.append(ops)
         impl_obs.append(obs)
         oracle_fail.append(r.failures)
+        model_ops.append(r.mops)
+        for k_, v_ in r.cov.items():
+            label_cov["directed"][k_] = label_cov["directed"].get(k_, 0) + v_
     ncorpus = len(histories)
     # the Lean counter-example theorems speak about the code only if the implementation shows them too
     wit = []
@@ -1258,9 +1742,24 @@ def run(ck):
         histories.append(ops)
         impl_obs.append(obs)
         oracle_fail.append(r.failures)
+        model_ops.append(r.mops)
+        for k_, v_ in r.cov.items():
+            label_cov["random"][k_] = label_cov["random"].get(k_, 0) + v_
     for ops in histories:
         nsteps += len(ops)
         for op in ops:
+            if op[0] in RELABEL:
+                strata["label_edit"] += 1
+                strata["label_column_assignment"] += op[0] == "labelcol"
+                texts = [op[3]] if op[0] == "setlabel" else [op[2]] if op[0] == "labelcol" and isinstance(op[2], str) else \
+                    op[2] if op[0] == "labelcol" else []
+                strata["label_with_trailing_blank"] += any(t != t.rstrip() for t in texts)
+            keys = [op[2][1]] if op[0] == "get" and op[2][0] == "l" else [kk[1] for kk in op[2][1] if kk[0] != "I"] \
+                if op[0] == "get" and op[2][0] in ("t", "k") else [kk[1] for kk in op[2] if kk[0] != "I"] if op[0] == "geom" else []
+            strata["distance_angle_by_label"] += op[0] == "geom" and bool(keys)
+            strata["label_key_literal_text"] += any(isinstance(v, str) for v in keys)
+            strata["label_with_trailing_blank"] += any(keytext(v) != keytext(v).rstrip() for v in keys)
+            strata["label_numeric_suffix>=1000"] += any(keytext(v).startswith("Cd1") for v in keys)
             hist_kinds[opname(op)] = hist_kinds.get(opname(op), 0) + 1
             # argument strata that must stay in the generated set
             if op[0] == "mul" and op[2] <= 0:
@@ -1274,15 +1773,17 @@ def run(ck):
             if op[0] == "ctor" and op[1] is not None and op[1][0] != "S" and op[2] is not None:
                 strata["ctor_iterable_with_lattice"] += 1
     ck.coverage["strata"] = strata
-    for k_, v_ in strata.items():
+    ck.coverage["label_lookup_strata"] = label_cov
+    for k_, v_ in list(strata.items()) + [("random:" + k_, v_) for k_, v_ in label_cov["random"].items()]:
         if v_ == 0:
             raise common.Broken("generator no longer produces the stratum %s" % k_)
-    # model side: one driver call for all histories
-    mobs = model_obs(histories)
-    sobs = model_obs(histories, "world.spec")
+    # model side: one driver call for all histories (harness-only operations left out, see ImplRun.project)
+    views = [model_view(ops, mops, io)[1] for ops, mops, io in zip(histories, model_ops, impl_obs)]
+    mobs = model_obs(views)
+    sobs = model_obs(views, "world.spec")
     reported = set()
     nmis = 0
-    for ops, io, mo, so, fails in zip(histories, impl_obs, mobs, sobs, oracle_fail):
+    for ops, io, mo, so, fails, mops, view in zip(histories, impl_obs, mobs, sobs, oracle_fail, model_ops, views):
         ck.coverage["evaluations"] += len(io)
         ck.coverage["traces_validated_against_impl"] += len(io)
         # 1. oracle failures (property text evaluated on the real objects)
@@ -1297,8 +1798,8 @@ def run(ck):
                 {"kind": "history", "history": tolist_json(small), "encoded": enc_hist(small), "oracle": key,
                  "detail": ok2[1] if ok2 else what})
         # 2. model vs implementation
-        d = first_diff(io, mo)
-        if d is not None and not (len(io) < len(mo) and d == len(io) and "diverges" in io[-1]):
+        d = model_diff(ops, mops, io, mo)
+        if d is not None:
             nmis += 1
             name = opname(ops[d]) if d < len(ops) else "?"
             key = "model-mismatch:%s" % name
@@ -1313,16 +1814,16 @@ def run(ck):
                     {"kind": "correspondence", "stream": "world.hist", "history": tolist_json(small), "encoded": enc_hist(small),
                      "impl": o1, "model": o2, "oracle_failures": {k: v[1] for k, v in oks.items()}},
                     no_failing_input=not oks)
-        # 3. ListSpec vs real Python lists
-        po = plain_obs(ops)
+        # 3. ListSpec vs real Python lists (by value, on the operations as the model is given them)
+        po = plain_obs(view)
         d = first_diff(po, so)
         if d is not None:
-            key = "listspec-mismatch:%s" % (opname(ops[d]) if d < len(ops) else "?")
+            key = "listspec-mismatch:%s" % (opname(view[d]) if d < len(view) else "?")
             if key not in reported:
                 reported.add(key)
                 ck.fail(key, "Lean ListSpec and CPython list disagree at step %d of [%s]: python %r, ListSpec %r" % (
-                    d, enc_hist(ops[:d + 1]), po[d] if d < len(po) else None, so[d] if d < len(so) else None),
-                    {"kind": "correspondence", "stream": "world.spec", "history": tolist_json(ops[:d + 1])}, no_failing_input=True)
+                    d, enc_hist(view[:d + 1]), po[d] if d < len(po) else None, so[d] if d < len(so) else None),
+                    {"kind": "correspondence", "stream": "world.spec", "history": tolist_json(view[:d + 1])}, no_failing_input=True)
     distinct = len(set(enc_hist(h) for h in histories))
     ck.coverage["distinct_nontrivial"] += distinct
     ck.coverage["rule"] = (
@@ -1330,7 +1831,13 @@ def run(ck):
         "initial structures (Structure and PDFFitStructure) with unique payloads; arguments re-use results of earlier operations with "
         "bias to the most recent; every step compared with the Lean model (payload lists, identity pattern over all live structures, "
         "atom.lattice is stru.lattice, lattice sharing, exception kind) and with the plain-list oracle + identity assertions; "
-        "distinct_nontrivial = distinct encoded histories" % (ncorpus, nhist, maxlen))
+        "labels: per history one family - 'L7' / 'Cd1007' / 'carbon_7' / 'site_7 ' (5-character prefixes shared, trailing blanks, "
+        "numeric suffix >= 1000); label edits (atom label assignment, swap, stru.label = list / ndarray / scalar / 5-character array), "
+        "distance / angle by label and lookups of near-miss texts are mixed in, and about a third of the histories contain an episode "
+        "'lookup by label - labels move (slice / item assignment, reverse, sort, pop + insert, label edits) - lookup by label' on one "
+        "structure; every lookup must give what the plain list of (payload, label) pairs gives (the atom carrying exactly that label, "
+        "IndexError for none or several); label_lookup_strata counts lookups after such moves, `hidden` = moves that the 5-character "
+        "label column Structure.label does not show; distinct_nontrivial = distinct encoded histories" % (ncorpus, nhist, maxlen))
     ck.coverage["op_histogram"] = dict(sorted(hist_kinds.items()))
     ck.coverage["steps"] = nsteps
     ck.coverage["model_mismatches"] = nmis
@@ -1344,7 +1851,13 @@ def run(ck):
         "translate/src_container.py (reads the container methods of structure.py: parameters and defaults, lattice stores, super() "
         "calls, call skeleton, statements; its output is what the theorems of DS.Props.SrcContainer compare the model's parameters with)"]
     ck.assumptions += [
-        "atom attributes other than the payload (xyz, U, element, label text) are not modelled; labels are derived from payloads",
+        "atom attributes other than the payload (xyz, U, element, label text) are not modelled; in the Lean model a label is the payload "
+        "(an opaque value).  Label edits exist only in the harness: they are not sent to the model, and from the first label edit of a "
+        "history on (and for label keys given as literal text) the model receives each label key as the position that the labels of the "
+        "real atoms give it (or as a label nobody has) - resolveKey is then tied to the implementation only through the histories "
+        "without label edits; the plain list of (payload, label) pairs is the judge of every lookup by label in all histories",
+        "distance(k0, k1) / angle(k0, k1, k2) are given to the model as the selection stru[k0, k1(, k2)] and its release (their only "
+        "effect on the object graph); their values are compared with the Cartesian geometry of the atoms the plain list selects",
         "whole-column attribute assignment (stru.xyz = ..., occupancy, U...) is modelled separately (DS.Column / DS.Props.C08Column): NumPy broadcasting of the value; it does not interact with the object-graph model because it changes no identity, order or lattice reference (checked on every assignment)",
         "file I/O (read/readStr/write) and placeInLattice are covered by C16/C14, not here",
         "copy(), copy.copy, Structure(s), PDFFitStructure(s) are one model operation; Structure/PDFFitStructure differ only in pdffit metadata",
@@ -1378,6 +1891,9 @@ def replay(path):
     run_, obs = run_impl(ops, oracle=True)
     for o, ob in zip(ops, obs):
         print("%-40s -> %s" % (enc_op(o), ob))
+    pays = sorted(set(o[2] for o in ops if o[0] == "addnew") | set(o[1] for o in ops if o[0] == "mkatom"))
+    print("atoms are created with the labels (payload -> label; a numeric label key stands for that text):",
+          ", ".join("%d -> %r" % (p_, lab(p_)) for p_ in pays if isinstance(p_, int)))
     known = [e["key"] for e in common.known_findings("C08")]
 
     def is_known(key):
@@ -1387,8 +1903,9 @@ def replay(path):
     # a listed known finding met on the way is not what this replay is about
     bad = any(not is_known(key) for _, key, _ in run_.failures)
     if r.get("kind") == "correspondence" and r.get("stream") == "world.hist":
-        mo = model_obs([ops])[0]
-        d = first_diff(obs, mo)
+        mview = model_view(ops, run_.mops, obs)[1]
+        mo = model_obs([mview])[0] if mview else []
+        d = model_diff(ops, run_.mops, obs, mo)
         print("model:", mo)
         print("first difference at step:", d)
         bad = bad or d is not None
